@@ -64,10 +64,12 @@ StopsOnGrid(ev) == \A i \in 1..Len(ev.stops) : AsScaled(ev.stops[i].o, 12).ok
 
 IsPow2(n) == \E j \in 0..12 : n = Pow2(j)
 
-(* tolerance of one 16-bit unit unless the interpolation parameter is dyadic (then exact) *)
+(* tolerance of one 16-bit unit unless the interpolation parameter is dyadic (then exact); at a stop's own offset the *)
+(* parameter is 0 or 1 whatever the width ("at a stop's offset the colour is that stop's colour"): exact             *)
 Slack(stops, u) ==
   LET i == FindRange(stops, u, 1) IN
   IF u < 0 \/ u < stops[1].o \/ i = 0 THEN 0
+  ELSE IF u = stops[i].o \/ u = stops[i + 1].o THEN 0
   ELSE IF IsPow2(stops[i + 1].o - stops[i].o) THEN 0 ELSE 1
 
 Premul(c) == c[1] <= c[4] /\ c[2] <= c[4] /\ c[3] <= c[4]
